@@ -617,7 +617,11 @@ class Base64Engine:
         else:
             # NOTE: this assumes ascii-compat encoding, and that
             # all chars used by encoding are 7-bit ascii.
-            last = self._encode64(self._decode64(last) & mask)
+            try:
+                value = self._decode64(last)
+            except KeyError:
+                raise ValueError("invalid character in source") from None
+            last = self._encode64(value & mask)
             assert last in padset, "failed to generate valid padding char"
             last = bytes([last])
         return True, source[:-1] + last
